@@ -296,6 +296,8 @@ type dialRec struct {
 	addr  string
 	kind  string
 	end   atomic.Int64
+	endNs atomic.Int64 // virtual time at which the hook returned
+	until int64        // an "ok" dial is in flight until this virtual time (the transport waits out the scripted latency after the hook returned)
 }
 
 func tid() int {
@@ -426,10 +428,10 @@ func (H) Execute(x *common.Exec, s any) {
 		}
 		k := int(sv.dials.Add(1)) - 1
 		d := sv.sv.Dials[k%len(sv.sv.Dials)]
-		rec := &dialRec{stamp: simrt.Stamp(), ns: int64(x.R.Now()), addr: target, kind: d.Kind}
+		rec := &dialRec{stamp: simrt.Stamp(), ns: int64(x.R.Now()), addr: target, kind: d.Kind, until: int64(x.R.Now()) + d.DelayNs}
 		id := tid()
 		w.dials[id] = append(w.dials[id], rec)
-		defer func() { rec.end.Store(simrt.Stamp()) }()
+		defer func() { rec.end.Store(simrt.Stamp()); rec.endNs.Store(int64(x.R.Now())) }()
 		switch d.Kind {
 		case "err":
 			if d.DelayNs > 0 {
@@ -671,6 +673,8 @@ func (w *world) dump(acts [][]*actRec) string {
 	}
 	return sb.String()
 }
+
+func addrOf(i int) string { return fmt.Sprintf("10.0.0.%d:%d", i+1, 9000+i) }
 
 func (w *world) judge(x *common.Exec, acts [][]*actRec, quietNs int64, atQuiescence bool) {
 	sc := w.sc
@@ -1025,6 +1029,67 @@ func (w *world) judge(x *common.Exec, acts [][]*actRec, quietNs int64, atQuiesce
 					return
 				}
 			}
+		}
+	}
+	// ---- a managed target is never abandoned: at the judgement point it has
+	// an open stream, or a dial for its address is in flight, or its latest sign
+	// of life (attempt started, stream ended, error reported) is younger than the
+	// back-off maximum.
+	for ti, t := range sc.Targets {
+		last := int64(1 << 61)
+		if m, unsure := managedAt(t.Name, last, last+1, nil); !m || unsure {
+			continue
+		}
+		x.Oblige(1)
+		alive := false
+		lastLife := int64(-1)
+		for _, se := range sess {
+			if se.Target() != t.Name {
+				continue
+			}
+			if se.open.Load() {
+				alive = true
+			}
+			if v := se.endNs.Load(); v > lastLife {
+				lastLife = v
+			}
+			if v := se.reqNs.Load(); v > lastLife {
+				lastLife = v
+			}
+		}
+		for _, ds := range w.dials {
+			for _, d := range ds {
+				if d.addr != addrOf(sc.Targets[ti].Server) {
+					continue
+				}
+				if d.end.Load() == 0 || d.kind == "ok" && quietNs <= d.until+int64(time.Second) {
+					alive = true
+				}
+				if v := d.endNs.Load(); v > lastLife {
+					lastLife = v // a dial for its address has just ended: the outcome may still be on its way
+				}
+			}
+		}
+		for _, as := range w.attempts {
+			for _, a := range as {
+				if a.name == t.Name && a.ns > lastLife {
+					lastLife = a.ns
+				}
+			}
+		}
+		for _, c := range cbs {
+			if c.name == t.Name && c.ns > lastLife {
+				lastLife = c.ns
+			}
+		}
+		for _, a := range all {
+			if isAdd(a) && nameOf(a) == t.Name && a.retNs > lastLife {
+				lastLife = a.retNs // freshly added: its first attempt may not have begun
+			}
+		}
+		if !alive && lastLife >= 0 && quietNs-lastLife > sc.MaxNs+int64(time.Second) {
+			x.Violate("C13/target-abandoned", "target %s is managed, but it has no open stream, no dial in flight, and its latest sign of life is %v old (RetryMaxDelay %v): nobody is retrying it\n%s", t.Name, time.Duration(quietNs-lastLife), time.Duration(sc.MaxNs), dump())
+			return
 		}
 	}
 	// ---- back-off bound: after MonitorError the next dial for that target's address starts within RetryMaxDelay.
